@@ -133,5 +133,23 @@ PROPS["C10"] = dict(PROPS["C04"], variants=["v1"], lean=["Gengo.Props.C10"],
     "on-disk copy after: no change, single-byte edits (first/middle/last position; thorough: every position of 20 files), truncation, extension, "
     "deletion, missing output directory, an extra unrelated file, two bad files at once.")
 
+PROPS["C03"] = {
+    "variants": ["v1", "v2"],
+    "lean": ["Gengo.Props.C03"],
+    "level": "proof",
+    "level_text": "Kernel-checked on the model of Orderer (after the repair of F4): the order is a permutation of the universe's entries "
+                  "(each exactly once), non-decreasing in the namer's names, and equal for any two enumerations of the same universe "
+                  "(every hash-map schedule), ties included; a witness shows the pre-repair contract admitted different results. The real "
+                  "OrderUniverse runs 24 times per universe on freshly built Go maps and is compared with the model.",
+    "level_note": "Trusted: Lean kernel; sort.Stable modelled by List.mergeSort (contract: stable sorted permutation); the flattening of the "
+                  "nested collection loops into one key order (validated by correspondence); the namer is an input (its names are computed by "
+                  "the real namer and passed to the model).",
+    "rule": "hand-built universes: 1..4 packages over 6 paths, 0..3 types/functions/variables/constants each over 6 names (so that several "
+            "entries share a name), ordered under raw/public(0..2)/private(0..1) namers; each universe is ordered 24 times; a third also "
+            "through OrderTypes on a shuffled sub-list; thorough adds all universes with <= 4 entries over a 6-cell grid x 3 namers. "
+            "Non-trivial = at least two entries; distinct = distinct line.",
+    "assumptions": ["names contain no NUL byte"],
+}
+
 # properties not claimed, with the reason (kept current by hand)
 NOT_APPLICABLE = {}
